@@ -36,7 +36,7 @@ pub const S4: &[&str] = &[
 pub const S5: &[&str] = &[
     " ", "\n", "a", "x", "e", "d", "b", "t", "n", "f", "_", "1", "0", "9", ".", "'", "\"", ";",
     "/", "*", "&", "%", "=", "<", ">", "!", "|", "¦", "^", "¬", "$", "(", ")", ",", ":", "+", "-",
-    "{", "#", "@", "?", "\\", "é", "€", "\u{a0}", "datalines", "cards4", ";;;;", "data", "eq", "\0",
+    "{", "#", "@", "?", "\\", "é", "€", "\u{a0}", "datalines", "cards4", ";;;;", "data", "eq", "\0", "correspondingly",
 ];
 
 /// S5 without the five least connected atoms (thorough tier at N = 5)
@@ -218,7 +218,12 @@ pub fn s9_core() -> Vec<String> {
 pub fn boundary_atoms() -> Vec<String> {
     let maxk = keywords().iter().map(|k| k.0.len()).max().unwrap_or(13);
     let maxm = macro_keywords().iter().map(|k| k.0.len()).max().unwrap_or(14);
+    // the longest keywords themselves and one character more: a truncated look-up would match
+    let longest_kw = keywords().iter().map(|k| k.0.clone()).max_by_key(String::len).unwrap_or_default().to_ascii_lowercase();
+    let longest_mkw = macro_keywords().iter().map(|k| k.0.clone()).max_by_key(String::len).unwrap_or_default().to_ascii_lowercase();
     vec![
+        format!("{longest_kw}ly"),
+        format!("%{longest_mkw}x"),
         format!("%{}", "q".repeat(maxm)),
         format!("%{}", "q".repeat(maxm + 1)),
         "k".repeat(maxk),
